@@ -264,7 +264,8 @@ Definition init (ops : list (list Z)) : st :=
   let m := Nat.min (S (dmax d)) 3 in       (* dmax <= 2 always *)
   let progs := firstn m [dp0 d; dp1 d; dp2 d] in
   let cl := map (fun ip => next_client (fst ip) (snd ip)) (combine (seq 0 m) progs) in
-  mkSt [] false (seq m (dn d)) 0 false m [] (cl ++ repeat WIdle (dn d)).
+  let n := Nat.max 1 (dn d) in             (* dn >= 1 always *)
+  mkSt [] false (seq m n) 0 false m [] (cl ++ repeat WIdle n).
 
 Definition unfinished (p : pc) : bool := match p with CDone | WExit => false | _ => true end.
 Fixpoint stuck_list (l : list pc) (i : nat) : list Z :=
